@@ -240,6 +240,10 @@ def units(tier, seed):
     D, P = (3, 2) if tier == 'quick' else (6, 3)
     for op in O.catalogue():
         add('unchanged/%s/D%d,P%d' % (op.name, D, P), 'h_unchanged', opname=op.name, D=D, P=P)
+        if tier != 'quick':
+            add('unchanged/%s/D9,P1' % op.name, 'h_unchanged', opname=op.name, D=9, P=1)
+            if op.group != 'kink':      # (one branch per element and direction)
+                add('unchanged/%s/D2,P5' % op.name, 'h_unchanged', opname=op.name, D=2, P=5)
     for op in O.catalogue():
         if any(len(a.shape) >= 2 for a in op.args):
             # matrices in Fortran order: the layout LAPACK/scipy wrappers overwrite in place
